@@ -119,11 +119,8 @@ def do_step(step, root):
 
 
 def eligible(label):
-    """Fault sites of C02: everything except the *writing* of the .ch header (open / text writes /
-    close on a file named .ch).  Renames and unlinks of a .ch are publish/remove steps and count."""
-    op, _, p = label.partition(":")
-    if p.endswith(".ch") and (op.startswith("open-") or op in ("twrite", "write", "close")):
-        return False
+    """Fault sites of C02: every event of the operation.  (Until the repair of finding 1b the *writing* of the .ch header
+    was left out: a failure there could leave a published .cbin next to a rewritten header, which is what that finding was.)"""
     return True
 
 
@@ -191,24 +188,29 @@ def _next_step(r, model, fs, ns, nfaults):
         if st["via"] == "kwargs" and r.random() < 0.3:
             st["comp_level"] = r.choice([1, 9])
     if op == "recompress":
-        # compress again over an existing complete pair, with the chunking that pair was made with
-        # (so that the rewritten .ch is byte-identical and the unchanged code has no window of harm)
-        st = {"op": "compress", "recompress": True, "chunk_samples": model["chunk_samples"],
-              "chunk_duration": model["chunk_duration"], "n_threads": r.choice([1, 2, 4]),
-              "check_after": r.random() < 0.7, "via": r.choice(["kwargs", "config"])}
-        if model.get("codec"):      # every parameter that ends up in the .ch must be the one the pair was made with
-            st.update(model["codec"])
-            st["via"] = "kwargs"
+        # compress again over an existing complete pair: with the parameters that pair was made with, or with others
+        # (another chunking / codec setting: the header that is rewritten then differs from the published one)
+        if r.random() < 0.5:
+            st = {"op": "compress", "recompress": True, "chunk_samples": model["chunk_samples"],
+                  "chunk_duration": model["chunk_duration"], "n_threads": r.choice([1, 2, 4]),
+                  "check_after": r.random() < 0.7, "via": r.choice(["kwargs", "config"])}
+            if model.get("codec"):
+                st.update(model["codec"])
+                st["via"] = "kwargs"
+        else:
+            cs, cd = _chunking(r, ns, fs)
+            st = {"op": "compress", "recompress": True, "chunk_samples": cs, "chunk_duration": cd, "n_threads": r.choice([1, 2, 4]),
+                  "check_after": r.random() < 0.7, "via": "kwargs"}
+            if r.random() < 0.3:
+                st["do_spatial_diff"] = True
         op = "compress"
     if op == "replace_compress":
         # history: the operator replaces the .bin by another recording of the same shape (re-copied, re-exported) while the
         # old .cbin/.ch pair is still there, then compresses again: the published .cbin must hold the NEW content
         cs, cd = _chunking(r, ns, fs)
         st = {"op": "compress", "replace_content": r.randrange(1 << 30), "chunk_samples": cs, "chunk_duration": cd,
-              "n_threads": r.choice([1, 2, 4]), "check_after": r.random() < 0.7, "via": "kwargs", "fault": None}
+              "n_threads": r.choice([1, 2, 4]), "check_after": r.random() < 0.7, "via": "kwargs"}
         op = "compress"
-        st["keep_original"] = r.random() < 0.5
-        return st
     if op == "compress":
         st["keep_original"] = r.random() < 0.5
     if op == "decompress":
@@ -239,8 +241,7 @@ def _precond(st, model):
         if st.get("replace_content") is not None:
             return model["bin"] == "complete" and model["cbin"] == "complete"
         if st.get("recompress"):
-            return model["bin"] == "complete" and model["cbin"] == "complete" and \
-                model.get("chunk_duration") == st.get("chunk_duration")
+            return model["bin"] == "complete" and model["cbin"] == "complete"
         return model["bin"] == "complete" and (model["cbin"] == "absent" or st.get("retry"))
     if op == "decompress":
         return model["cbin"] == "complete" and (model["bin"] == "absent" or st.get("overwrite") or st.get("expect_refusal"))
@@ -474,7 +475,10 @@ def _exec_step(W, st, model, log, stats, bump, seed, progress=False):
         raise Violation("C02.A2", f"{sig0}:meta-changed", "metadata file changed | " + ctx)
     if after["cbin"] == "other" and st.get("replace_content") is not None and not failed:
         raise Violation("C02.L", f"{sig0}:stale-cbin-after-recompression", "the .bin was replaced by another recording of the same shape and compressed again; the published .cbin does not hold the new content | " + ctx)
-    if after["cbin"] == "other":
+    if after["cbin"] == "other" and before["cbin"] == "other" and failed and W.cbin.exists() and sha1_file(W.cbin) == src_sha.get(W.cbin.name) \
+            and W.ch.exists() and sha1_file(W.ch) == src_sha.get(W.ch.name):
+        pass        # the stale pair of the recording that was there before the operator replaced it: untouched by the failed call
+    elif after["cbin"] == "other":
         # tolerated only while an in-place decompression is removing its source (the .cbin and its
         # .ch go one after the other) and the replacement .bin is already complete
         removing_source = op == "decompress" and not keep and after["bin"] == "complete" and before["cbin"] == "complete"
@@ -488,9 +492,6 @@ def _exec_step(W, st, model, log, stats, bump, seed, progress=False):
         if not legit:
             clause = "C02.A2" if op in ("compress", "to_scratch") else "C02.L"
             raise Violation(clause, f"{sig0}:bin-corrupt", "the .bin no longer equals the original | " + ctx)
-    if st.get("recompress") and after["cbin"] != "complete":
-        bump("probes", "recompress_over_existing_pair")
-        raise Violation("C02.A2", f"{sig0}:recompress-damaged-existing", "a complete .cbin/.ch pair existed before the re-compression; afterwards the final-name .cbin is no longer a complete recording | " + ctx)
     if st.get("recompress"):
         bump("probes", "recompress_over_existing_pair")
     if after["bin"] != "complete" and after["cbin"] != "complete":
@@ -726,8 +727,11 @@ def sweep_plans(tier, verif_seed):
                     "steps": [dict(x) for x in pre] + [dict(tgt, fault=None)], "want_events": True}
             res = run_plan(base)
             ev = (res.get("step_events") or [[]])[-1]
+            # the header is written with ~70 small text writes: the first, the last and a few in between stand for all
+            tw = [k for k, lab in enumerate(ev) if lab.startswith("twrite:")]
+            keep_tw = set(tw[:1] + tw[-1:] + (sorted(r.sample(tw, min(len(tw), 3))) if tw else []))
             for k, lab in enumerate(ev):
-                if not eligible(lab):
+                if not eligible(lab) or (lab.startswith("twrite:") and k not in keep_tw):
                     continue
                 op = lab.split(":", 1)[0]
                 kinds = ["kill", "io_error", "interrupt"] + (["torn", "short"] if op in ("write", "tofile") else []) + (["short"] if op == "copy" else [])
